@@ -628,6 +628,8 @@ cfoldBCall(Foam bcall)
 		if (!cfoldFoldAll) break;
 		assert(foamTag(argv[0]) == FOAM_SInt);
 		assert(foamTag(argv[1]) == FOAM_SInt);
+		/* A zero divisor, or LONG_MIN by -1, traps: leave those to run time. */
+		if (argv[1]->foamSInt.SIntData == 0 || argv[1]->foamSInt.SIntData == -1) break;
 		foam = foamNewSInt(argv[0]->foamSInt.SIntData %
 				   argv[1]->foamSInt.SIntData);
 		break;
@@ -635,6 +637,8 @@ cfoldBCall(Foam bcall)
 		if (!cfoldFoldAll) break;
 		assert(foamTag(argv[0]) == FOAM_SInt);
 		assert(foamTag(argv[1]) == FOAM_SInt);
+		/* A zero divisor, or LONG_MIN by -1, traps: leave those to run time. */
+		if (argv[1]->foamSInt.SIntData == 0 || argv[1]->foamSInt.SIntData == -1) break;
 		foam = foamNewSInt(argv[0]->foamSInt.SIntData /
 				   argv[1]->foamSInt.SIntData);
 		break;
@@ -642,6 +646,8 @@ cfoldBCall(Foam bcall)
 		if (!cfoldFoldAll) break;
 		assert(foamTag(argv[0]) == FOAM_SInt);
 		assert(foamTag(argv[1]) == FOAM_SInt);
+		/* A zero divisor, or LONG_MIN by -1, traps: leave those to run time. */
+		if (argv[1]->foamSInt.SIntData == 0 || argv[1]->foamSInt.SIntData == -1) break;
 		foam = foamNewSInt(argv[0]->foamSInt.SIntData %
 				   argv[1]->foamSInt.SIntData);
 		break;
@@ -657,6 +663,8 @@ cfoldBCall(Foam bcall)
 		assert(foamTag(argv[0]) == FOAM_SInt);
 		assert(foamTag(argv[1]) == FOAM_SInt);
 		assert(foamTag(argv[2]) == FOAM_SInt);
+		/* A zero divisor, or LONG_MIN by -1, traps: leave those to run time. */
+		if (argv[2]->foamSInt.SIntData == 0 || argv[2]->foamSInt.SIntData == -1) break;
 		n = argv[0]->foamSInt.SIntData + argv[1]->foamSInt.SIntData;
 		foam = foamNewSInt(n % argv[2]->foamSInt.SIntData);
 		break;
@@ -665,6 +673,8 @@ cfoldBCall(Foam bcall)
 		assert(foamTag(argv[0]) == FOAM_SInt);
 		assert(foamTag(argv[1]) == FOAM_SInt);
 		assert(foamTag(argv[2]) == FOAM_SInt);
+		/* A zero divisor, or LONG_MIN by -1, traps: leave those to run time. */
+		if (argv[2]->foamSInt.SIntData == 0 || argv[2]->foamSInt.SIntData == -1) break;
 		n = argv[0]->foamSInt.SIntData - argv[1]->foamSInt.SIntData;
 		foam = foamNewSInt(n % argv[2]->foamSInt.SIntData);
 		break;
@@ -673,6 +683,8 @@ cfoldBCall(Foam bcall)
 		assert(foamTag(argv[0]) == FOAM_SInt);
 		assert(foamTag(argv[1]) == FOAM_SInt);
 		assert(foamTag(argv[2]) == FOAM_SInt);
+		/* A zero divisor, or LONG_MIN by -1, traps: leave those to run time. */
+		if (argv[2]->foamSInt.SIntData == 0 || argv[2]->foamSInt.SIntData == -1) break;
 		n = argv[0]->foamSInt.SIntData * argv[1]->foamSInt.SIntData;
 		foam = foamNewSInt(n % argv[2]->foamSInt.SIntData);
 		break;
